@@ -20,7 +20,19 @@ import (
 	"github.com/internetarchive/Zeno/pkg/models"
 )
 
-const propID = "C02"
+var (
+	propID      = "C02"
+	harnessName = "c02"
+)
+
+func init() {
+	// part B of C04: the same harness judged for "every URL reported finished has its captures in the WARC files":
+	// a kill at any step leaves the queue with the finish messages sent so far and the files with the records
+	// written so far, so a finish message that precedes the write of an accepted response is a lost capture
+	if os.Getenv("VERIF_HARNESS") == "c04b" || os.Getenv("VERIF_PART") == "c04b" {
+		propID, harnessName = "C04", "c04b"
+	}
+}
 
 type scen struct {
 	Def world.SiteDef `json:"site"`
@@ -41,6 +53,9 @@ func (s *scen) name() string {
 	}
 	if s.TempDirGone {
 		n += " +temp-dir-gone"
+	}
+	if s.Opt.HTTPTimeout > 0 {
+		n += fmt.Sprintf(" http-timeout=%ds", s.Opt.HTTPTimeout)
 	}
 	return n
 }
@@ -245,6 +260,12 @@ func scenarios(tier string) []scen {
 		{URL: H + "/big.txt", Kind: "bigtext"}, {URL: H + "/a.png", Kind: "bin"}}}, Opt: world.Options{Workers: 1, MaxConcurrentAssets: 1, MaxRetry: 0, MaxRedirect: 2}, P: 1, TempDirGone: true})
 	out = append(out, scen{Def: world.SiteDef{Name: "page+2.2 MiB text asset", Seeds: []string{H + "/page"}, Nodes: []world.Node{page(H+"/page", H+"/big.txt", H+"/a.png"),
 		{URL: H + "/big.txt", Kind: "bigtext"}, {URL: H + "/a.png", Kind: "bin"}}}, Opt: world.Options{Workers: 1, MaxConcurrentAssets: 1, MaxRetry: 0, MaxRedirect: 2}, P: 1})
+	// --http-timeout set (the default is none): a slow WARC write (5 virtual minutes) outlasts it
+	for _, d := range defs[:2] {
+		for _, ca := range [][2]int{{1, 1}, {1, 2}} {
+			out = append(out, scen{Def: d, Opt: world.Options{Workers: 1, MaxConcurrentAssets: ca[1], MaxRetry: 1, MaxRedirect: 2, HTTPTimeout: 30}, P: P - 1})
+		}
+	}
 	// the same ordering clause around a stop request
 	for _, d := range defs[:4] {
 		out = append(out, scen{Def: d, Opt: world.Options{Workers: 1, MaxConcurrentAssets: 1, MaxRetry: 1, MaxRedirect: 2}, P: P - 1, Stop: true})
@@ -315,7 +336,7 @@ func main() {
 			if err := vsched.Confirm(scenario(&ss[j]), &v); err != nil {
 				hkit.EngineError("violation did not replay: %v", err)
 			}
-			hkit.Report(propID, v.Sig, map[string]any{"engine": "explore", "harness": "c02", "scenario": ss[j], "violation": v},
+			hkit.Report(propID, v.Sig, map[string]any{"engine": "explore", "harness": harnessName, "scenario": ss[j], "violation": v},
 				fmt.Sprintf("%s: %s: %s", r.Name, v.Kind, firstLine(v.Message)))
 		}
 		total.Merge(r.Rep)
@@ -324,12 +345,12 @@ func main() {
 		"states": total.States, "transitions": total.Transitions, "traces_validated_against_impl": total.Executions,
 		"samples": []any{total.Sample}, "exhaustive": total.Exhaustive, "scenarios": len(ss), "distinct_outcomes": len(outcomes),
 		"per_scenario": per,
-		"explanation":  "part A (ordering): real pipeline on fake sites incl. responses the real discard hook chain rejects (429, 403+cf-mitigated) and retried failures; the WARC write of every response is its own scheduled thread started at body close; every schedule with at most P deviations plus at most one slow write (a write that takes 5 virtual minutes: F<=1); oracle at each finish message: every accepted response fetched for the seed has been written, no rejected response is ever written",
+		"explanation":  map[bool]string{true: "part B of C04 (a kill at any step of the run): the C02 part A harness - a finish message that precedes the write of an accepted response of that seed is a capture a kill would lose for good - ", false: ""}[harnessName == "c04b"] + "part A (ordering): real pipeline on fake sites incl. responses the real discard hook chain rejects (429, 403+cf-mitigated) and retried failures; the WARC write of every response is its own scheduled thread started at body close; every schedule with at most P deviations plus at most one slow write (a write that takes 5 virtual minutes: F<=1); oracle at each finish message: every accepted response fetched for the seed has been written, no rejected response is ever written",
 	}, []string{
 		"the fake writer signals feedback only after marking the response written (that the real library does so after flushing the record is decided by part B on the real writer)",
 		"the fake writer writes what the real hook chain (discard.NewBuilder().AddDefaultHooks()) lets through; whether the policy accepts a response is computed independently from --warc-discard-status and the cf-mitigated header",
 	}, hkit.Violations())
-	fmt.Printf("C02 %s (part A): %d scenarios, %d executions, %d states, %d transitions, exhaustive=%v\n", a.Tier, len(ss), total.Executions, total.States, total.Transitions, total.Exhaustive)
+	fmt.Printf(propID+" %s (part "+map[bool]string{true: "B", false: "A"}[harnessName == "c04b"]+"): %d scenarios, %d executions, %d states, %d transitions, exhaustive=%v\n", a.Tier, len(ss), total.Executions, total.States, total.Transitions, total.Exhaustive)
 	hkit.Exit()
 }
 
